@@ -1,7 +1,7 @@
 (* Properties/C10.v — files marked `libninja: static` are never modified or deleted.
    [decode c] is what read_to_string sees: c itself for UTF-8 text (decode_id), "" otherwise.
    For every plan (= every spec and code generator), every prior tree, every path (generated or not, any depth). *)
-From LN Require Import Model.Fs Proofs.FsP.
+From LN Require Import Model.Crate Model.Fs Proofs.FsP Proofs.CrateP Proofs.DetP.
 Local Open Scope nat_scope.
 
 Theorem C10_static_untouched : forall plan t p c, plan_wf plan -> wf t ->
@@ -19,6 +19,15 @@ Print Assumptions C10_static_untouched_many.
 Theorem C10_gen_refines : forall plan t p, plan_wf plan -> wf t -> lookup (gen plan t) p = gen_spec plan t p.
 Proof. exact gen_refines. Qed.
 Print Assumptions C10_gen_refines.
+
+(* the same for the plan libninja actually has — every file of the generated crate, lib.rs in its two variants, any
+   formatter: under D's distinctness of schema and operation names its paths are distinct, so the hypothesis on the
+   plan is discharged and the statement is about the generator itself *)
+Theorem C10_static_untouched_by_the_crate : forall fmt fuel h cfg tp plan t p c, schemas_distinct h -> ops_distinct h ->
+  crate_plan fmt fuel h cfg tp = Ok plan -> wf t ->
+  lookup t p = Some c -> has_static (decode c) = true -> lookup (gen plan t) p = Some c.
+Proof. exact crate_static_untouched. Qed.
+Print Assumptions C10_static_untouched_by_the_crate.
 
 (* non-vacuity: a static file at a generated path, one at a stale path, both markers, nested directory *)
 Theorem C10_nonvacuous :
